@@ -18,7 +18,9 @@ import numpy as np
 import xdeps
 def mk(col, base=0):
     n = len(col)
-    return xdeps.Table({"name": np.array(list(col), dtype=object), "v": np.arange(n, dtype=float) + base, "w": np.arange(n) * 10})
+    alt = [("abc"[("abc".index(x) + 1) % 3] if x in "abc" else x + "'") for x in col]      # a second name column (a permutation of the names)
+    return xdeps.Table({"name": np.array(list(col), dtype=object), "v": np.arange(n, dtype=float) + base, "w": np.arange(n) * 10,
+                        "alt": np.array(alt, dtype=object)})
 def resolve(col, name, count, offset):
     occ = [i for i, x in enumerate(col) if x == name]
     c = 0 if count is None else count
@@ -41,7 +43,7 @@ def designators(name, count, offset):
     return out
 def check_all(t, names, counts, offsets, hows=("get_index", "floordiv", "getitem", "setitem")):
     """compare every entry point with the oracle on the table's current index column; -> list of mismatches"""
-    col = list(t["name"])
+    col = list(t[t._index])          # the CURRENT index column
     n = len(col)
     bad = []
     for name in names:
@@ -61,7 +63,7 @@ def check_all(t, names, counts, offsets, hows=("get_index", "floordiv", "getitem
                             elif how == "floordiv":
                                 got = t // des
                             elif how == "setitem":
-                                c = xdeps.Table({k: np.array(t[k]) for k in t._col_names}, index="name")
+                                c = xdeps.Table({k: np.array(t[k]) for k in t._col_names}, index=t._index)
                                 c._get_cache()
                                 c["v", des] = -99.5
                                 changed = [i for i in range(n) if c["v"][i] != t["v"][i]]
@@ -97,8 +99,9 @@ def mutations(n):
     M = [("replace index column", "t['name'] = np.array((list('cab') * 9)[:len(t)], dtype=object)"),
          ("replace index column (attribute style)", "t.name = np.array((list('bbc') * 9)[:len(t)], dtype=object)"),
          ("add column", "t['z'] = np.arange(len(t)) * 2.0"), ("delete column", "del t['w']"),
+         ("re-point the index to another column", "t._index = 'alt'"), ("re-point the index (item style)", "t['_index'] = 'alt' if t._index == 'name' else 'name'"),
          ("value cell by name", "t['v', t['name'][0]] = -7.0"),
-         ("append row", "t._append_row({'name': 'b', 'v': 1000.0 + len(t), 'w': 10 * len(t), 'z': 0.0})"),
+         ("append row", "t._append_row({'name': 'b', 'v': 1000.0 + len(t), 'w': 10 * len(t), 'z': 0.0, 'alt': 'c'})"),
          ("concatenate", "t._concatenate_table(mk('ca', 100) if 'w' in t and 'z' not in t else 1 / 0)")]
     for i in range(n):
         for new in ("a", "c", "zz"):
@@ -156,31 +159,31 @@ def main():
                     env = dict(t=t, np=__import__("numpy"), mk=mk)
                     for label, src in seq:
                         try:
-                            t.rows.get_index(t["name"][0])      # warm the cache
+                            t.rows.get_index(t[t._index][0])      # warm the cache
                             t._get_cache()
                         except Exception:       # noqa
                             pass
-                        snap = (list(t["name"]), list(t._col_names))
+                        snap = (list(t["name"]), list(t._col_names), t._index)
                         try:
                             exec(src, env)
                             done.append(src)
                         except Exception:       # noqa  (update not applicable to this table: e.g. name absent)
-                            if (list(t["name"]), list(t._col_names)) != snap:
+                            if (list(t["name"]), list(t._col_names), t._index) != snap:
                                 done = None        # failed half-way: not a sequence of (successful) API updates
                                 break
                     if not done:
                         continue
-                    newcol = list(t["name"])
+                    newcol = list(t[t._index])
                     bad = check_all(t, tuple(sorted(set(newcol) | set(NAMES))) + ("zz",), (None, -2, -1, 0, 1, 2), (None, -1, 1),
                                     hows=("get_index", "getitem"))
                     rac.case((col, tuple(done)), nontrivial=newcol != list(col), sample=dict(column="".join(col), updates=done))
                     if bad:
                         how, des, got, want = bad[0]
                         body = f"t = mk({''.join(col)!r})\n" + "".join(
-                            f"try:\n    t.rows.get_index(t['name'][0]); t._get_cache()\nexcept Exception: pass\n{s}\n" for s in done)
+                            f"try:\n    t.rows.get_index(t[t._index][0]); t._get_cache()\nexcept Exception: pass\n{s}\n" for s in done)
                         rac.fail(f"updates {''.join(col)} {done}", f"C07 column {list(col)} after {done}: {how}({des!r}) gives {got!r}, a scan of the "
                                  f"current column {newcol} gives {want!r}", PRELUDE + ORACLE_SRC + body +
-                                 "names = tuple(sorted(set(t['name']) | {'a', 'b', 'c'})) + ('zz',)\nbad = check_all(t, names, (None, -2, -1, 0, 1, 2), (None, -1, 1))\nassert not bad, bad[:5]\n",
+                                 "names = tuple(sorted(set(t[t._index]) | {'a', 'b', 'c'})) + ('zz',)\nbad = check_all(t, names, (None, -2, -1, 0, 1, 2), (None, -1, 1))\nassert not bad, bad[:5]\n",
                                  "Table.__setitem__")
     rac.section("names", "longer / mixed-case / digit-bearing / separator-free unicode names, random columns of length 6..40, random "
                 "update sequences of length 3..6", "60 quick / 1500 thorough", exhaustive=False)
